@@ -77,8 +77,13 @@ pub fn par_cases(total: usize, f: impl Fn(usize, &mut Acc) + Sync) -> Acc {
                     }
                     let mut acc = Acc::default();
                     for i in ci * chunk..((ci + 1) * chunk).min(total) {
+                        // every 16th case runs right after failing calls on unrelated objects
+                        if crate::dirty::maybe(i, 16) {
+                            acc.bump("cases_run_right_after_failing_calls_on_unrelated_objects", 1);
+                        }
                         f(i, &mut acc);
                     }
+                    crate::dirty::mark_clean();
                     *outs[ci].lock().unwrap() = Some(acc);
                 }
                 crate::inflight::idle();
